@@ -72,13 +72,27 @@ func vid(v []byte) int64 {
 
 // ---- observations ------------------------------------------------------
 
-type keyObs struct{ id, vid, nb, na int64 }
+type keyObs struct{ id, vid, nb, na, mono int64 }
+
+// hasMono: does the time still carry a monotonic clock reading?  (time.Now() does; Round,
+// Truncate, UTC, In, AddDate, a round trip through Unix seconds ... strip it, and then
+// comparisons follow the wall clock, which this daemon itself steps.)
+func hasMono(t time.Time) bool { return strings.Contains(t.String(), " m=") }
 
 func obsKey(k ntske.Key) keyObs {
-	return keyObs{int64(k.ID), vid(k.Value), k.Validity.NotBefore.UnixNano(), k.Validity.NotAfter.UnixNano()}
+	m := int64(0)
+	// (Go's time.Time can carry a monotonic reading only until the year 2157; the histories
+	// with 2^16 rotations go beyond: there, and in the days before, nothing is demanded)
+	now := time.Now()
+	if (hasMono(k.Validity.NotBefore) && hasMono(k.Validity.NotAfter)) || !hasMono(now) || !hasMono(now.Add(100*time.Hour)) {
+		m = 1
+	}
+	return keyObs{int64(k.ID), vid(k.Value), k.Validity.NotBefore.UnixNano(), k.Validity.NotAfter.UnixNano(), m}
 }
 
-func (k keyObs) str() string { return lib.V(lib.I(k.id), lib.I(k.vid), lib.I(k.nb), lib.I(k.na)) }
+func (k keyObs) str() string {
+	return lib.V(lib.I(k.id), lib.I(k.vid), lib.I(k.nb), lib.I(k.na), lib.I(k.mono))
+}
 
 type opSpec struct {
 	get bool
@@ -213,7 +227,7 @@ func runHistKind(kind string, t0 int64, next func(h *hist) *opSpec, extraTag str
 		h.t0 = time.Now().UnixNano()
 		p := ntske.NewProvider()
 		h.now = h.t0
-		h.lastCur = keyObs{1, 1, h.t0, h.t0 + validity}
+		h.lastCur = keyObs{1, 1, h.t0, h.t0 + validity, 1}
 		for {
 			op := next(h)
 			if op == nil {
@@ -282,7 +296,7 @@ func runConc(t0 int64, next func(h *hist) *group, extraTag string) {
 		h.t0 = time.Now().UnixNano()
 		p := ntske.NewProvider()
 		h.now = h.t0
-		h.lastCur = keyObs{1, 1, h.t0, h.t0 + validity}
+		h.lastCur = keyObs{1, 1, h.t0, h.t0 + validity, 1}
 		var seq atomic.Int64
 		for {
 			g := next(h)
@@ -624,17 +638,24 @@ func (g *gen) nextGroup(h *hist) *group {
 func longHist(t0 int64, n int, step func(i int) int64, tag string) {
 	i := 0
 	t := t0
-	var pend []opSpec
+	var pend []opSpec  // to be made now, in this order
+	var timed []opSpec // to be made at their time (kept sorted), between the rotations
+	doneFor := -1
+	addTimed := func(o opSpec) {
+		timed = append(timed, o)
+		sort.SliceStable(timed, func(a, b int) bool { return timed[a].t < timed[b].t })
+	}
 	next := func(h *hist) *opSpec {
 		if len(pend) > 0 {
 			o := pend[0]
 			pend = pend[1:]
 			return &o
 		}
-		if i >= n {
+		if i >= n && len(timed) == 0 {
 			return nil
 		}
-		if i > 0 {
+		if i > 0 && i < n && doneFor != i {
+			doneFor = i
 			c := h.lastCur.id
 			near := i+1 >= 65530 && i+1 <= 65545
 			if near || i%1000 == 0 {
@@ -646,13 +667,40 @@ func longHist(t0 int64, n int, step func(i int) int64, tag string) {
 					pend = append(pend, opSpec{get: true, t: t, id: id})
 				}
 			}
+			// the boundaries of this key, one second before and after: renewal (Current) and
+			// end of validity / two days after hand-out (Get) - for a sample, and for the keys
+			// beyond 2^16
+			if i%997 == 0 || (i+1 >= 65534 && i+1 <= 65560) {
+				nb := h.lastCur.nb
+				s1 := int64(time.Second)
+				addTimed(opSpec{t: nb + renewal - s1})
+				addTimed(opSpec{get: true, t: nb + renewal - s1, id: c})
+				for _, d := range []int64{twoDays - s1, twoDays + s1, validity - s1, validity, validity + 1, validity + s1} {
+					addTimed(opSpec{get: true, t: nb + d, id: c})
+				}
+			}
+		}
+		if len(pend) > 0 {
+			o := pend[0]
+			pend = pend[1:]
+			return &o
+		}
+		// the next rotation, unless a timed call comes first
+		tn := t
+		if i < n {
+			tn = t + step(i+1)
+		}
+		if len(timed) > 0 && (i >= n || timed[0].t <= tn) {
+			o := timed[0]
+			timed = timed[1:]
+			if o.t < h.now {
+				o.t = h.now
+			}
+			return &o
 		}
 		i++
-		t += step(i)
-		pend = append(pend, opSpec{t: t})
-		o := pend[0]
-		pend = pend[1:]
-		return &o
+		t = tn
+		return &opSpec{t: t}
 	}
 	runHistKind("prov.long", t0, next, "nt,long,"+tag)
 }
@@ -827,11 +875,11 @@ func main() {
 		nh, nc, nv = 60000, 15000, 40000
 	}
 	lockCheck()
-	nl := 14
+	nl, budget := 14, 150*time.Second
 	if a.Tier == "thorough" {
-		nl = 120
+		nl, budget = 120, 900*time.Second
 	}
-	lsnCases(a.Seed, nl)
+	lsnCases(a.Seed, nl, budget)
 	corpus()
 	longHist(epoch2000, 65600, func(int) int64 { return renewal + 1 }, "wrap16")
 	if a.Tier == "thorough" {
